@@ -1,6 +1,7 @@
 pub mod c07;
 pub mod c10;
 pub mod c11;
+pub mod c12;
 pub mod c16;
 pub mod c18;
 pub mod c18_l2;
